@@ -176,6 +176,7 @@ func rulesC08(w *World, r *Report) {
 	if ex := fn(w.Cmd, "CopyCommand.execute"); ex != nil && cp != nil {
 		ruleLoopGoesOn(w, r, "C08.R7", "CopyCommand.execute:every-file", firstLoopCall(ex, cp), "with a glob pattern every matched file is copied")
 		ruleDestPathDefault(w, r, "C08.R7", ex, cp)
+		ruleGlobArgs(w, r, "C08.R7", ex, fn(w.Cmd, "globFiles"), "SrcRelPath")
 	}
 	ruleC08R8(w, r, a)
 	{
@@ -241,6 +242,7 @@ func rulesC09(w *World, r *Report) {
 		dof := fn(w.Cmd, "DiffCommand.diffOneFile")
 		ruleLoopGoesOn(w, r, "C09.R3", "DiffCommand.execute:every-file", firstLoopCall(ex, dof), "with a glob pattern every matched file is compared, also after a difference was found")
 		ruleDestPathDefault(w, r, "C09.R3", ex, dof)
+		ruleGlobArgs(w, r, "C09.R3", ex, fn(w.Cmd, "globFiles"), "SrcRelPath")
 		for _, c := range callsTo(ex, dof) {
 			if inLoopWith(c.Block()) {
 				r.Check(sameLeaves(c.Common().Args[1], c.Common().Args[2]), "C09.R3", "DiffCommand.execute:glob-same-path", w.instrPos(c), "same relative path on both sides", "glob mode compares a matched file with a different relative path")
@@ -286,9 +288,11 @@ func rulesC11(w *World, r *Report) {
 	}
 	if ex := need(w, r, "C11.R3", w.Cmd, "SumDiffCommand.execute"); ex != nil {
 		ruleLatchedVerdict(w, r, "C11.R3", ex)
+		ruleGlobArgs(w, r, "C11.R3", ex, fn(w.Cmd, "globItems"), "ItemPattern")
 		ruleLoopGoesOn(w, r, "C11.R3", "SumDiffCommand.execute:every-item", firstLoopCall(ex, fn(w.Cmd, "SumDiffCommand.sumDiffItem")), "every matched item is compared, also after a difference was found")
 	}
 	if ex := fn(w.Cmd, "SumCopyCommand.execute"); ex != nil {
+		ruleGlobArgs(w, r, "C11.R1", ex, fn(w.Cmd, "globItems"), "ItemPattern")
 		ruleLoopGoesOn(w, r, "C11.R1", "SumCopyCommand.execute:every-item", firstLoopCall(ex, fn(w.Cmd, "SumCopyCommand.sumCopyItem")), "the destination of every matched item is written")
 	}
 	{
@@ -1214,7 +1218,92 @@ func loopFromTo(ph *ssa.Phi, from int64) bool {
 			}
 		}
 	}
-	return hasInit && hasInc
+	return hasInit && hasInc && !loopCondInverted(ph)
+}
+
+// loopCondInverted: the header of ph's loop tests the counter (or counter+1, the form of range loops) against a
+// bound, and the edge into the loop body is not the one on which the counter is below the bound (`i > n`, `i >= n`):
+// the loop runs zero times or off the end instead of over the elements.
+func loopCondInverted(ph *ssa.Phi) bool {
+	h := ph.Block()
+	if len(h.Instrs) == 0 || len(h.Succs) != 2 {
+		return false
+	}
+	iff, ok := h.Instrs[len(h.Instrs)-1].(*ssa.If)
+	if !ok {
+		return false
+	}
+	cond, neg := stripNot(iff.Cond)
+	bo, ok := cond.(*ssa.BinOp)
+	if !ok || !isCmp(bo.Op) {
+		return false
+	}
+	isCtr := func(v ssa.Value) bool {
+		if v == ssa.Value(ph) {
+			return true
+		}
+		if b2, ok := v.(*ssa.BinOp); ok && b2.Op == token.ADD && b2.X == ssa.Value(ph) {
+			if k, ok := constInt(b2.Y); ok && k == 1 {
+				return true
+			}
+		}
+		return false
+	}
+	flip := 0
+	switch {
+	case isCtr(bo.X):
+		flip = 1
+	case isCtr(bo.Y):
+		flip = -1
+	default:
+		return false
+	}
+	// which successor is the body: the one from which the header is reachable again
+	body := -1
+	for i, s := range h.Succs {
+		// in the natural loop of h: a back edge's source is reachable from s without passing through h
+		for _, p := range h.Preds {
+			if h.Dominates(p) && (s == p || blockReachesAvoiding(s, p, h)) {
+				body = i
+			}
+		}
+	}
+	if body < 0 {
+		return false
+	}
+	onTrue := (body == 0) != neg
+	for sg := 0; sg <= 1; sg++ { // counter == bound, counter > bound
+		if signOK(bo.Op, sg*flip) == onTrue {
+			// the body is entered with the counter at or above the bound; fine only for `i <= last` forms, which
+			// compare with len-1 — not distinguished here: equality alone is tolerated, above is not
+			if sg == 1 {
+				return true
+			}
+		}
+	}
+	// the body must be entered when the counter is below the bound
+	return signOK(bo.Op, -1*flip) != onTrue
+}
+
+func blockReaches(from, to *ssa.BasicBlock) bool {
+	seen := map[*ssa.BasicBlock]bool{}
+	var walk func(b *ssa.BasicBlock) bool
+	walk = func(b *ssa.BasicBlock) bool {
+		if b == to {
+			return true
+		}
+		if seen[b] {
+			return false
+		}
+		seen[b] = true
+		for _, s := range b.Succs {
+			if walk(s) {
+				return true
+			}
+		}
+		return false
+	}
+	return walk(from)
 }
 
 // loopCheckDominates: check is inside a loop whose exit dominates the action
@@ -1335,4 +1424,25 @@ func ruleDestPathAgreement(w *World, r *Report, rule string, a *cmdAnchors) {
 	okC := strings.Contains(cp, "p0.DestBase") && strings.Contains(cp, "cmd.itemToRelDir(p1)") && strings.Contains(cp, "p0.DestRelPath")
 	okD := strings.Contains(dp, "p0.DestBase") && strings.Contains(dp, "cmd.itemToRelDir(p1)") && strings.Contains(dp, "p0.DestRelPath")
 	r.Check(okC && okD, rule, "dest-path", w.pos(sc.Pos()), "both use DestBase/itemToRelDir(item)/DestRelPath", "sum-copy writes "+cp+" but sum-diff reads "+dp+": for items more than one directory deep the two commands address different files")
+}
+
+func blockReachesAvoiding(from, to, avoid *ssa.BasicBlock) bool {
+	seen := map[*ssa.BasicBlock]bool{avoid: true}
+	var walk func(b *ssa.BasicBlock) bool
+	walk = func(b *ssa.BasicBlock) bool {
+		if b == to {
+			return true
+		}
+		if seen[b] {
+			return false
+		}
+		seen[b] = true
+		for _, s := range b.Succs {
+			if walk(s) {
+				return true
+			}
+		}
+		return false
+	}
+	return walk(from)
 }
